@@ -58,6 +58,7 @@ class Rec:
         self.reasons = []
         self.delivered = 0
         self.delivered_after_closed = 0
+        self.delivered_while_closing = 0
         self.written_at_closed = None
         self.closing_times = []   # virtual time of each CLOSING not yet followed by its CLOSED
         self.ep = None
@@ -112,6 +113,8 @@ class Sim:
         r.delivered += 1
         if 'CLOSED' in r.reported:
             r.delivered_after_closed += 1
+        if ev.connection.state.name in ('CLOSING', 'CLOSED'):
+            r.delivered_while_closing += 1
 
     # ---- broker
     def _on_connect(self, host, port):
@@ -122,7 +125,18 @@ class Sim:
     def endpoint(self, host='10.0.0.9', port=40000, label=''):
         ep = fakes.Endpoint(self.net, peername=(host, port), sockname=('10.0.0.1', 50000), label=label)
         ep.wait_closed_hang = self.wc_hang
+        self.patch_wait_closed(ep)
         return ep
+
+    wc_instant = False
+
+    def patch_wait_closed(self, ep):
+        """wc_instant: the transport is already closed when wait_closed() is awaited (its close waiter is done):
+        wait_closed() returns without yielding to the loop"""
+        if self.wc_instant:
+            async def instant():
+                return None
+            ep.writer.wait_closed = instant
 
     def resolve_connect(self, what, idx=0):
         """what: Endpoint | Exception. Resolves the idx-th pending connect."""
@@ -190,7 +204,8 @@ def frame(msg_bytes: bytes, obfuscated: bool) -> bytes:
 class ConnSim(Sim):
     """Scenario runner for C10: one connection of `kind`, clear or obfuscated."""
 
-    def __init__(self, kind, obf=False, typ='P', wc_hang=False, start=1000.0):
+    def __init__(self, kind, obf=False, typ='P', wc_hang=False, start=1000.0, wc_instant=False):
+        self.wc_instant = wc_instant and not wc_hang
         super().__init__(wc_hang=wc_hang, start=start)
         self.kind, self.obf, self.typ = kind, obf, typ
         self.attempt = None          # task of the connecting coroutine / accept task
@@ -331,6 +346,7 @@ class ConnSim(Sim):
             port = 60001 if self.obf else 60000
             self.ep = self.net.incoming(port)
             self.ep.wait_closed_hang = self.wc_hang
+            self.patch_wait_closed(self.ep)
             self.attempt = self.net.accept_tasks[-1]
             self.tasks.append(self.attempt)
             return ['Accept']
@@ -394,13 +410,7 @@ class ConnSim(Sim):
             if ep is None or not self._reader_alive() or ep.client_closed or ep.remote_closed:
                 return []
             if x == 'msg':
-                if self.kind == 'server':
-                    m = GetUserStatus.Response('u', 1, False).serialize()
-                elif self._ctype() == 'D':
-                    m = DistributedBranchLevel.Request(1).serialize()
-                else:
-                    m = PeerSharesRequest.Request().serialize()
-                ep.feed(frame(m, self._cobf()))
+                ep.feed(frame(self._msg_bytes(), self._cobf()))
                 return ['ReaderGets XMsg']
             if x == 'undecodable':
                 ep.feed(frame(struct.pack('<II', 4, 0x7fffff01), self._cobf()))
@@ -412,6 +422,42 @@ class ConnSim(Sim):
                 return ['ReaderGets XTimeout']
             self._feed_fault(x)
             return ['ReaderGets ' + {'eof': 'XEof', 'partial': 'XPartial', 'err': 'XErr'}[x]]
+        if k == 'tail_disc':
+            # the last bytes of a frame arrive in the same loop iteration as a local disconnect(), in either order
+            order = a[1]
+            ep = self.ep
+            if ep is None or not self._reader_alive() or ep.client_closed or ep.remote_closed or self._closing_now():
+                return []
+            c = self.cur()
+            m = frame(self._msg_bytes(), self._cobf())
+            ep.feed(m[:5])
+            self.settle()
+            if not self._reader_alive():
+                return []
+            if order == 'feed_first':
+                ep.feed(m[5:])
+                self.spawn(c.disconnect(CloseReason.REQUESTED))
+                return ['ReaderGets XMsg', 'Disconnect RRequested']
+            self.spawn(c.disconnect(CloseReason.REQUESTED))
+            ep.feed(m[5:])
+            return ['Disconnect RRequested', 'ReaderGets XMsg']
+        if k == 'qsend':
+            c = self.cur()
+            mode = a[1]
+            if c is None or mode not in ('ok', 'fail'):
+                return []
+            ep = self.ep
+            if ep is not None:
+                ep.drain_error = ConnectionResetError('reset') if mode == 'fail' else None
+                ep.drain_hang = False
+
+            async def q():
+                return c.queue_message(b'\x04\x00\x00\x00\x01\x00\x00\x00')
+            qt = self.spawn(q())
+            self.settle(4)
+            if ep is not None:
+                ep.drain_error = None
+            return ['QSend ' + {'ok': 'SOk', 'fail': 'SFail'}[mode]]
         if k == 'send':
             c = self.cur()
             mode = a[1]
@@ -435,6 +481,14 @@ class ConnSim(Sim):
                 self.advance(10.0)
             return ['Send ' + {'ok': 'SOk', 'fail': 'SFail', 'hang': 'STimeout'}[mode]]
         raise ValueError(a)
+
+    def _msg_bytes(self):
+        from aioslsk.protocol.messages import PeerSharesRequest, GetUserStatus, DistributedBranchLevel
+        if self.kind == 'server':
+            return GetUserStatus.Response('u', 1, False).serialize()
+        if self._ctype() == 'D':
+            return DistributedBranchLevel.Request(1).serialize()
+        return PeerSharesRequest.Request().serialize()
 
     def _advance_to_read_deadline(self):
         """let exactly the read timeout expire (every send shifts it by read_timeout), nothing later"""
@@ -491,6 +545,7 @@ class ConnSim(Sim):
             'pcs': getattr(getattr(c, 'connection_state', None), 'name', '-'),
             'delivered': r.delivered if r else 0,
             'delivered_after_closed': r.delivered_after_closed if r else 0,
+            'delivered_while_closing': r.delivered_while_closing if r else 0,
             'attempt': task_outcome(self.attempt),
             'sends': sends,
             'written': len(self.ep.written) if self.ep is not None else 0,
@@ -507,11 +562,16 @@ class ConnSim(Sim):
 def run_scenario(sc):
     """sc = {'kind','obf','typ','wch','acts'} -> result dict (implementation side) incl. 'events': per action
     the model events it stands for."""
-    sim = ConnSim(sc['kind'], obf=sc.get('obf', False), typ=sc.get('typ', 'P'), wc_hang=sc.get('wch', False))
+    sim = ConnSim(sc['kind'], obf=sc.get('obf', False), typ=sc.get('typ', 'P'), wc_hang=sc.get('wch', False), wc_instant=sc.get('wci', False))
     try:
         evs = [sim.act(a) for a in sc['acts']]
         r = sim.result()
         r['events'] = evs
+        # grace period (monitor only, after the compared snapshot): every disconnect() in flight must be over after
+        # DISCONNECT_TIMEOUT; a connection still CLOSING then never reaches CLOSED
+        sim.advance(6.0)
+        c = sim.cur()
+        r['after_grace'] = {'state': c.state.name if c is not None else '-', 'in_registry': sim.in_registry(c) if c is not None else False}
         return r
     finally:
         sim.close()
